@@ -14,8 +14,11 @@ def _nontrivial(recs):
 
 PROP = dict(
     specdir="core", engine="c02",
-    mc=[dict(module="MetaInfo", cfg="MC_MetaInfo.cfg", tiers=("quick",)),
-        dict(module="MetaInfo", cfg="MC_MetaInfo_thorough.cfg", tiers=("thorough",), timeout=1800)],
+    # the small model runs in both tiers (in thorough with -coverage 1: vacuity check); the big model (DESIGN's len 0..40 x pl 1..12 x
+    # 255 tables) takes minutes, TLC then prints interim coverage reports in which deep actions still show 0 -- which the kit's
+    # vacuity parser would misread -- so it runs without -coverage
+    mc=[dict(module="MetaInfo", cfg="MC_MetaInfo.cfg"),
+        dict(module="MetaInfo", cfg="MC_MetaInfo_thorough.cfg", tiers=("thorough",), timeout=2400, coverage=False)],
     trace=dict(module="MetaInfoTrace", cfg="MetaInfoTrace.cfg"),
     chunk_lines=2500,
     max_rejections=8,
